@@ -1,8 +1,11 @@
 import GMGModel.SmootherCode
+import GMGModel.SmootherGiveCode
 import GMGDriver.OpsDrv
-/-! `gmgdriver smcode`: the code-level smoother model (`GMGModel/SmootherCode.lean`) against what the real SmootherGive /
-SmootherTake objects store and compute: every stored entry of every line matrix, `temp = rhs - A_sc^ortho x` line by line,
-and the iterate after one sweep (model sweep executed in exact rationals and in IEEE double). -/
+/-! `gmgdriver smcode`: the code-level smoother models (`GMGModel/SmootherCode.lean`, gather; `GMGModel/SmootherGiveCode.lean`,
+scatter) against what the real SmootherGive / SmootherTake objects store and compute: every stored entry of every line matrix,
+`temp = rhs - A_sc^ortho x` line by line, and the iterate after one sweep (model sweep executed in exact rationals and in IEEE
+double).  Strategy give is compared with BOTH models: with the gather model within the allowance (its sums associate
+differently), with the scatter model (same `+=` in the same order) in double bit for bit when run with one thread. -/
 namespace SmCodeDrv
 open Drv Stencil SmootherCode OpsDrv
 
@@ -21,6 +24,24 @@ structure St where
   outsBitEq : Nat := 0        -- … of which bit-identical at every node of a tridiagonal line
   worstOut : Rat := 0         -- max |impl - exact model sweep| / max|out|
   worstEntry : Rat := 0
+  -- strategy give against the scatter model `SmootherGiveCode`
+  giveEntries1 : Nat := 0       -- stored entries of SmootherGive with 1 thread compared with the scatter model
+  giveEntries1BitEq : Nat := 0  -- … of which bit-identical to the scatter model evaluated in double (must be all)
+  giveEntries4 : Nat := 0       -- the same with 4 threads (3-coloured order of the `+=`: allowance only)
+  giveEntries4BitEq : Nat := 0
+  giveWorstEntry : Rat := 0
+  giveTemps : Nat := 0          -- values of temp handed to a line solve of the sequential give sweep
+  giveTempsBitEq : Nat := 0     -- … of which bit-identical to the scatter kernels of the model run in double on the same iterate
+  giveLines : Nat := 0          -- tridiagonal line solves of the replay: model solver on the implementation's temp slice
+  giveLinesBitEq : Nat := 0     -- … of which return the implementation's next iterate bit for bit
+  giveReplays : Nat := 0        -- replays of smoothingSequential statement by statement that end in the bits of smoothing()
+  giveSweeps : Nat := 0         -- give / 1 thread sweeps compared with the double scatter-model sweep
+  giveSweepsBitEq : Nat := 0    -- … of which bit-identical at every node off the innermost circle
+  giveRatEqTake : Nat := 0      -- Dirichlet cases: exact give-model sweep == exact take-model sweep (as arrays of rationals)
+  giveRatCmp : Nat := 0
+  cacheKey : String := ""       -- the four records of a case share x and f: the exact model sweeps are computed once
+  cacheTake : Option (Option (Array Rat)) := none
+  cacheGive : Option (Option (Array Rat)) := none
   sample : List String := []
 
 def tol40 : Rat := Hex.twoPowNeg 40
@@ -38,6 +59,132 @@ def fieldF (nt : Nat) (a : Array Float) : Field Float := fun i j => a.getD (i * 
 
 def tinyF (d : Float) : Bool := Float.abs d < 1e-12
 def tinyQ (d : Rat) : Bool := Hex.rabs d < mkRat 1 1000000000000
+
+
+/-! ### strategy give against the scatter model -/
+
+structure Acc where
+  nbad : Nat := 0
+  first : String := ""
+  cnt : Nat := 0
+  bitEq : Nat := 0
+  firstBits : String := ""
+  worst : Rat := 0
+
+/-- one value: implementation (double), exact model value, magnitude, double model value -/
+def Acc.cmp (a : Acc) (what : String) (impl : Float) (exact s : Rat) (mf : Float) : Acc :=
+  let ir := floatToRat impl
+  let ok := closeTo ir exact s
+  let e := if s > 0 then Hex.rabs (ir - exact) / s else 0
+  let be := impl.toBits == mf.toBits
+  { nbad := if ok then a.nbad else a.nbad + 1, first := if ok ∨ !a.first.isEmpty then a.first else what, cnt := a.cnt + 1,
+    bitEq := if be then a.bitEq + 1 else a.bitEq, firstBits := if be ∨ !a.firstBits.isEmpty then a.firstBits else what,
+    worst := if e > a.worst then e else a.worst }
+
+
+/-- every stored cell of the SmootherGive object against `SmootherGiveCode.slotVal` of the executed stores; also the column
+    indices of the CSR rows.  Returns the accumulator and structural complaints. -/
+def giveMatrices (l : Lvl) (cms rms : List String) (ents : List (Nat × Nat × Float)) : Acc × List String := Id.run do
+  let nt := l.nt; let nr := l.nr; let nc := l.nc
+  let us := SmootherGiveCode.allUpdates l.op nc; let ua := SmootherGiveCode.allUpdates l.opAbs nc; let uF := SmootherGiveCode.allUpdates l.opF nc
+  let cell := fun (a : Acc) (what : String) (impl : Float) (s : SmootherGiveCode.Slot) =>
+    a.cmp what impl (SmootherGiveCode.slotVal us s) (SmootherGiveCode.slotVal ua s).v (SmootherGiveCode.slotVal uF s)
+  let mut acc : Acc := {}
+  let mut bad : List String := []
+  for i in [1:nc] do
+    let (m, b, c) := parseTri (cms.getD (i - 1) "")
+    if m.size != nt ∨ b.size + 1 != nt then bad := bad ++ [s!"circle {i} matrix has dimension {m.size}/{b.size}"]
+    for j in [0:m.size] do acc := cell acc s!"circle {i} main[{j}]" m[j]! (.cMain i j)
+    for j in [0:b.size] do acc := cell acc s!"circle {i} sub[{j}]" b[j]! (.cSub i j)
+    match c with
+    | some cv => acc := cell acc s!"circle {i} corner" cv (.cCorner i)
+    | none => bad := bad ++ [s!"circle {i} solver is not cyclic"]
+  for j in [0:nt] do
+    let (m, b, _) := parseTri (rms.getD j "")
+    if m.size != nr - nc ∨ b.size + 1 != nr - nc then bad := bad ++ [s!"radial {j} matrix has dimension {m.size}/{b.size}"]
+    for t in [0:m.size] do acc := cell acc s!"radial {j} main[{t}]" m[t]! (.rMain j t)
+    for t in [0:b.size] do acc := cell acc s!"radial {j} sub[{t}]" b[t]! (.rSub j t)
+  let w := if l.bc then 1 else 4
+  for j in [0:nt] do
+    let row := ents.filter (·.1 == j)
+    if row.length != w then bad := bad ++ [s!"inner circle row {j} stores {row.length} entries, model {w}"]
+    else
+      for q in [0:w] do
+        let e := row.getD q (0, 0, 0)
+        if e.2.1 != SmootherGiveCode.slotCol us (.inner j q) then
+          bad := bad ++ [s!"inner circle row {j} entry {q} is column {e.2.1}, model column {SmootherGiveCode.slotCol us (.inner j q)}"]
+        acc := cell acc s!"inner row {j} entry {q}" e.2.2 (.inner j q)
+  -- no store of the model may address a cell outside the allocated storage
+  let inb := fun (s : SmootherGiveCode.Slot) => match s with
+    | .cMain i j => 0 < i ∧ i < nc ∧ j < nt
+    | .cSub i j => 0 < i ∧ i < nc ∧ j + 1 < nt
+    | .cCorner i => 0 < i ∧ i < nc
+    | .rMain j t => j < nt ∧ t < nr - nc
+    | .rSub j t => j < nt ∧ t + 1 < nr - nc
+    | .rCorner _ => false
+    | .inner r q => r < nt ∧ q < w
+  match us.find? (fun u => !(inb u.1 : Bool)) with
+  | some u => bad := bad ++ [s!"the model stores into a cell outside the allocated storage: {repr u.1}"]
+  | none => pure ()
+  return (acc, bad)
+
+/-- the four scatter passes of `smoothingSequential`, each on the implementation's iterate at the start of the phase (`gx`),
+    the solved lines of `temp` replaced by the implementation's next iterate: returns for every node the value of `temp` its
+    line solve is given -/
+def giveTempChain {α : Type} [Scalar α] (o : Op α) (nc : Nat) (f : Field α) (gx : Array (Array α)) : Array α :=
+  let nt := o.nt; let nr := o.nr
+  let z : Array α := #[]
+  let rowOf := fun (a : Array α) (i : Nat) => (List.range nt).map fun j => a.getD (i * nt + j) (Scalar.n 0)
+  let colOf := fun (a : Array α) (j : Nat) => (List.range (nr - nc)).map fun t => a.getD ((nc + t) * nt + j) (Scalar.n 0)
+  let t0 := ofField nr nt f
+  let t1 := SmootherGiveCode.orthoBlackCircles o nc (gx.getD 0 z) t0
+  let t1' := (blackCircles nc).foldl (fun t i => writeCircle nt t i (rowOf (gx.getD 1 z) i)) t1
+  let t2 := SmootherGiveCode.orthoWhiteCircles o nc (gx.getD 1 z) t1'
+  let t2' := (whiteCircles nc).foldl (fun t i => writeCircle nt t i (rowOf (gx.getD 2 z) i)) t2
+  let t3 := SmootherGiveCode.orthoBlackRadials o nc f (gx.getD 2 z) t2'
+  let t3' := (blackRadials nt).foldl (fun t j => writeRadial nt nc t j (colOf (gx.getD 3 z) j)) t3
+  let t4 := SmootherGiveCode.orthoWhiteRadials o nc f (gx.getD 3 z) t3'
+  Array.ofFn (n := nr * nt) fun p =>
+    let i := p.val / nt; let j := p.val % nt
+    let src := if i < nc then (if (nc - 1 - i) % 2 = 0 then t1 else t2) else (if j % 2 = 0 then t3 else t4)
+    src.getD p.val (Scalar.n 0)
+
+def giveTemps (l : Lvl) (f : Array Rat) (fF : Array Float) (gxS gtS : String) : Acc := Id.run do
+  let nt := l.nt; let nr := l.nr; let nc := l.nc
+  let parts := gxS.splitOn ";"
+  let gxF : Array (Array Float) := (parts.map parseFloatsA).toArray
+  let gxQ : Array (Array Rat) := gxF.map (·.map floatToRat)
+  let gxA : Array (Array AbsQ) := gxQ.map (·.map absq)
+  let gt := parseFloatsA gtS
+  let mF := giveTempChain l.opF nc (fieldF nt fF) gxF
+  let mQ := giveTempChain l.op nc (field nt f) gxQ
+  let mA := giveTempChain l.opAbs nc (fieldAbs nt f) gxA
+  let mut acc : Acc := {}
+  for p in [0:nr * nt] do
+    acc := acc.cmp s!"node ({p / nt},{p % nt})" (gt.getD p 0) (mQ.getD p 0) (mA.getD p ⟨0⟩).v (mF.getD p 0)
+  return acc
+
+/-- the tridiagonal line solves of the replayed sequential sweep: the model's solver (matrices of the scatter model, in
+    double) applied to the implementation's `temp` slice must return the implementation's next iterate on that line, bit for
+    bit.  Returns (lines, bit-identical lines, first line that differs). -/
+def giveLineSolves (l : Lvl) (gxS gtS : String) (outF : Array Float) : Nat × Nat × String := Id.run do
+  let nt := l.nt; let nr := l.nr; let nc := l.nc
+  let gxF : Array (Array Float) := ((gxS.splitOn ";").map parseFloatsA).toArray
+  let gt := parseFloatsA gtS
+  let uF := SmootherGiveCode.allUpdates l.opF nc
+  let same := fun (a b : List Float) => a.length == b.length ∧ (a.zip b).all fun (u, v) => u.toBits == v.toBits
+  let mut lines := 0; let mut eq := 0; let mut first := ""
+  for i in [1:nc] do
+    let nxt := if (nc - 1 - i) % 2 = 0 then gxF.getD 1 #[] else gxF.getD 2 #[]
+    let sol := (Tridiag.solve (SmootherGiveCode.circleSolverOf uF nt i) (SmootherGiveCode.circleSeg nt gt i)).2
+    lines := lines + 1
+    if same sol (SmootherGiveCode.circleSeg nt nxt i) then eq := eq + 1 else if first.isEmpty then first := s!"circle {i}"
+  for j in [0:nt] do
+    let nxt := if j % 2 = 0 then gxF.getD 3 #[] else outF
+    let sol := (Tridiag.solve (SmootherGiveCode.radialSolverOf uF (nr - nc) j) (SmootherGiveCode.radialSeg nr nt nc gt j)).2
+    lines := lines + 1
+    if same sol (SmootherGiveCode.radialSeg nr nt nc nxt j) then eq := eq + 1 else if first.isEmpty then first := s!"radial {j}"
+  return (lines, eq, first)
 
 def step (st : St) (line : String) : IO St := do
   let toks := fields line
@@ -114,6 +261,19 @@ def step (st : St) (line : String) : IO St := do
           acc := cmp s!"inner row {j} entry {q}" e.2.2 me.2 (ma.getD q (0, ⟨0⟩)).2.v (mF.getD q (0, 0)).2 acc
     (firstBad, nbad, entries, bitEq, worstEntry) := acc
     stats ← check stats (nbad == 0) fun _ => s!"{tag}: {nbad} stored line-matrix entries differ from the model beyond 2^-40·S (first: {firstBad})"
+    -- strategy give: the same cells against the scatter model (same `+=` in the same order)
+    let mut gE1 := 0; let mut gE1b := 0; let mut gE4 := 0; let mut gE4b := 0; let mut gWorst := st.giveWorstEntry
+    if strat == "give" then
+      let (ga, gbad) := giveMatrices l cms rms ents
+      for m in gbad do
+        stats ← check stats false fun _ => s!"{tag}: scatter model: {m}"
+      stats ← check stats (ga.nbad == 0) fun _ => s!"{tag}: {ga.nbad} stored line-matrix entries differ from the scatter model beyond 2^-40·S (first: {ga.first})"
+      if threads == "1" then
+        stats ← check stats (ga.bitEq == ga.cnt) fun _ => s!"{tag}: {ga.cnt - ga.bitEq} of {ga.cnt} stored line-matrix entries are not bit-identical to the scatter model evaluated in double (first: {ga.firstBits})"
+        gE1 := ga.cnt; gE1b := ga.bitEq
+      else
+        gE4 := ga.cnt; gE4b := ga.bitEq
+      if ga.worst > gWorst then gWorst := ga.worst
     -- temp = rhs - A_sc^ortho x on the input iterate (take only)
     let x := parseRatsA ((kv rest "x").getD ""); let f := parseRatsA ((kv rest "f").getD "")
     let xF := parseFloatsA ((kv rest "x").getD ""); let fF := parseFloatsA ((kv rest "f").getD "")
@@ -134,16 +294,39 @@ def step (st : St) (line : String) : IO St := do
           if !(closeTo (floatToRat impl) e s) ∧ badT.isNone then badT := some (i, j)
       stats ← check stats badT.isNone fun _ =>
         let q := badT.getD (0, 0); s!"{tag}: temp = rhs - A_sc^ortho x differs from the model at node ({q.1},{q.2}) beyond 2^-40·S"
+    -- strategy give, one thread: temp handed to every line solve of smoothingSequential
+    let mut gTemps := 0; let mut gTempsBit := 0; let mut gReplays := 0; let mut gLines := 0; let mut gLinesBit := 0
+    let gxS := (kv rest "gx").getD "-"; let gtS := (kv rest "gt").getD "-"
+    if strat == "give" ∧ threads == "1" then
+      stats ← check stats (gxS != "-" ∧ gtS != "-") fun _ => s!"{tag}: the harness did not dump the replay of smoothingSequential"
+      let gseq := (kv rest "gseq").getD "-"
+      stats ← check stats (gseq == "1") fun _ => s!"{tag}: replaying the statements of smoothingSequential does not reproduce smoothing() bit for bit"
+      if gseq == "1" then gReplays := 1
+      if gxS != "-" ∧ gtS != "-" then
+        let ta := giveTemps l f fF gxS gtS
+        stats ← check stats (ta.nbad == 0) fun _ => s!"{tag}: {ta.nbad} values of temp handed to a line solve differ from the scatter model (same iterate) beyond 2^-40·S (first: {ta.first})"
+        stats ← check stats (ta.bitEq == ta.cnt) fun _ => s!"{tag}: {ta.cnt - ta.bitEq} of {ta.cnt} values of temp handed to a line solve are not bit-identical to the scatter model evaluated in double on the same iterate (first: {ta.firstBits})"
+        gTemps := ta.cnt; gTempsBit := ta.bitEq
+        let (ln, le, lf) := giveLineSolves l gxS gtS (parseFloatsA ((kv rest "out").getD ""))
+        stats ← check stats (ln == le) fun _ => s!"{tag}: {ln - le} of {ln} tridiagonal line solves of the replayed sweep are not bit-identical to the model solver applied to the same temp (first: {lf})"
+        gLines := ln; gLinesBit := le
     -- one sweep: exact model sweep vs implementation
     let outF := parseFloatsA ((kv rest "out").getD "")
     let out := outF.map floatToRat
     let mut worstOut := st.worstOut
     let mut outs := 0; let mut outsBitEq := 0
     let yFo := sweep oF tinyF nc ffF xF
-    match sweep o tinyQ nc ff x with
+    -- the records of one case share x and f
+    let key := ((kv rest "x").getD "") ++ "|" ++ ((kv rest "f").getD "")
+    let mut cTake := if st.cacheKey == key then st.cacheTake else none
+    let mut cGive := if st.cacheKey == key then st.cacheGive else none
+    let yTake ← match cTake with
+      | some y => pure y
+      | none => do let y := sweep o tinyQ nc ff x; cTake := some y; pure y
+    let scale := out.foldl (fun m v => max m (Hex.rabs v)) 0
+    match yTake with
     | none => stats ← check stats false fun _ => s!"{tag}: the model sweep takes the sparse LU's exit branch, the implementation returned"
     | some y =>
-      let scale := out.foldl (fun m v => max m (Hex.rabs v)) 0
       let mut badO : Option Nat := none
       for q in [0:nr * nt] do
         let d := Hex.rabs (out.getD q 0 - y.getD q 0)
@@ -164,7 +347,42 @@ def step (st : St) (line : String) : IO St := do
         -- nodes of the innermost circle go through the hash-map based LU (iteration order unspecified): excluded from the bit comparison
         let allEq := (List.range (nr * nt)).all fun q => q < nt ∨ (outF.getD q 0).toBits == (yF.getD q 0).toBits
         if allEq then outsBitEq := outsBitEq + 1
-    return { st with stats := stats, runs := st.runs + 1, entries := st.entries + entries, entriesBitEq := st.entriesBitEq + bitEq, takeEntries := st.takeEntries + (if strat == "take" then entries else 0), takeEntriesBitEq := st.takeEntriesBitEq + (if strat == "take" then bitEq else 0), temps := st.temps + temps, tempsBitEq := st.tempsBitEq + tempsBitEq, outs := st.outs + outs, outsBitEq := st.outsBitEq + outsBitEq, worstOut := worstOut, worstEntry := worstEntry }
+    -- strategy give: the scatter model's sequential sweep, in double and in exact rationals
+    let mut gSweeps := 0; let mut gSweepsBit := 0; let mut gRatEq := 0; let mut gRatCmp := 0
+    if strat == "give" then
+      let gFo := SmootherGiveCode.sweep oF nc tinyF ffF xF
+      let fresh := cGive.isNone
+      let yGive ← match cGive with
+        | some y => pure y
+        | none => do let y := SmootherGiveCode.sweep o nc tinyQ ff x; cGive := some y; pure y
+      match yGive with
+      | none => stats ← check stats false fun _ => s!"{tag}: the scatter model's sweep takes the sparse LU's exit branch, the implementation returned"
+      | some y =>
+        let mut badO : Option Nat := none
+        for q in [0:nr * nt] do
+          let d := Hex.rabs (out.getD q 0 - y.getD q 0)
+          let dF := match gFo with
+            | some yF => Hex.rabs (out.getD q 0 - floatToRat (yF.getD q 0))
+            | none => d
+          if d > tol20 * scale ∧ dF > tol20 * scale ∧ badO.isNone then badO := some q
+        stats ← check stats badO.isNone fun _ =>
+          let q := badO.getD 0; s!"{tag}: sweep result differs from the scatter model's sweep (executed in exact rationals and in double) at node ({q / nt},{q % nt}) beyond 2^-20·max|out|"
+        -- Dirichlet inner boundary: over the rationals both models return the same array (C06g.give_sweep_eq_take_sweep)
+        if fresh ∧ l.bc then
+          gRatCmp := 1
+          let same := match yTake with
+            | some yt => y.size == yt.size ∧ (List.range y.size).all fun q => y.getD q 0 == yt.getD q 0
+            | none => false
+          stats ← check stats same fun _ => s!"{tag}: over the rationals the scatter model's sweep and the gather model's sweep return different arrays (Dirichlet inner boundary)"
+          if same then gRatEq := 1
+      if threads == "1" then
+        match gFo with
+        | none => pure ()
+        | some yF =>
+          gSweeps := 1
+          let allEq := (List.range (nr * nt)).all fun q => q < nt ∨ (outF.getD q 0).toBits == (yF.getD q 0).toBits
+          if allEq then gSweepsBit := 1
+    return { st with stats := stats, runs := st.runs + 1, entries := st.entries + entries, entriesBitEq := st.entriesBitEq + bitEq, takeEntries := st.takeEntries + (if strat == "take" then entries else 0), takeEntriesBitEq := st.takeEntriesBitEq + (if strat == "take" then bitEq else 0), temps := st.temps + temps, tempsBitEq := st.tempsBitEq + tempsBitEq, outs := st.outs + outs, outsBitEq := st.outsBitEq + outsBitEq, worstOut := worstOut, worstEntry := worstEntry, giveEntries1 := st.giveEntries1 + gE1, giveEntries1BitEq := st.giveEntries1BitEq + gE1b, giveEntries4 := st.giveEntries4 + gE4, giveEntries4BitEq := st.giveEntries4BitEq + gE4b, giveWorstEntry := gWorst, giveTemps := st.giveTemps + gTemps, giveTempsBitEq := st.giveTempsBitEq + gTempsBit, giveReplays := st.giveReplays + gReplays, giveLines := st.giveLines + gLines, giveLinesBitEq := st.giveLinesBitEq + gLinesBit, giveSweeps := st.giveSweeps + gSweeps, giveSweepsBitEq := st.giveSweepsBitEq + gSweepsBit, giveRatEqTake := st.giveRatEqTake + gRatEq, giveRatCmp := st.giveRatCmp + gRatCmp, cacheKey := key, cacheTake := cTake, cacheGive := cGive }
   | "seed" :: _ => return st
   | ["end"] => return st
   | _ => IO.println s!"REJECT {(line.take 80).toString}"; return { st with stats := { st.stats with rejects := st.stats.rejects + 1 } }
@@ -172,7 +390,7 @@ def step (st : St) (line : String) : IO St := do
 def main : IO UInt32 := do
   let st ← forLines (← IO.getStdin) ({} : St) step
   let s := st.stats
-  IO.println s!"SUMMARY kind=smcode cases={s.cases} checks={s.checks} diffs={s.diffs} rejects={s.rejects} runs={st.runs} matrix_entries={st.entries} matrix_entries_bit_identical_to_double_model={st.entriesBitEq} take_matrix_entries={st.takeEntries} take_matrix_entries_bit_identical={st.takeEntriesBitEq} temp_values={st.temps} temp_values_bit_identical={st.tempsBitEq} take_sweeps={st.outs} take_sweeps_bit_identical_off_inner_circle={st.outsBitEq} worst_entry_error_over_S_in_units_of_2^-53={ratToSci st.worstEntry} worst_sweep_error_rel_in_units_of_2^-53={ratToSci st.worstOut} oracle_fails={st.oracleFails}"
+  IO.println s!"SUMMARY kind=smcode cases={s.cases} checks={s.checks} diffs={s.diffs} rejects={s.rejects} runs={st.runs} matrix_entries={st.entries} matrix_entries_bit_identical_to_double_model={st.entriesBitEq} take_matrix_entries={st.takeEntries} take_matrix_entries_bit_identical={st.takeEntriesBitEq} temp_values={st.temps} temp_values_bit_identical={st.tempsBitEq} take_sweeps={st.outs} take_sweeps_bit_identical_off_inner_circle={st.outsBitEq} worst_entry_error_over_S_in_units_of_2^-53={ratToSci st.worstEntry} worst_sweep_error_rel_in_units_of_2^-53={ratToSci st.worstOut} give1_entries_vs_scatter_model={st.giveEntries1} give1_entries_bit_identical_to_scatter_model={st.giveEntries1BitEq} give4_entries_vs_scatter_model={st.giveEntries4} give4_entries_bit_identical_to_scatter_model={st.giveEntries4BitEq} give_worst_entry_error_over_S_in_units_of_2^-53={ratToSci st.giveWorstEntry} give1_temp_values={st.giveTemps} give1_temp_values_bit_identical={st.giveTempsBitEq} give1_line_solves={st.giveLines} give1_line_solves_bit_identical={st.giveLinesBitEq} give1_sequential_replays_bit_identical={st.giveReplays} give1_sweeps={st.giveSweeps} give1_sweeps_bit_identical_off_inner_circle={st.giveSweepsBitEq} dirichlet_exact_give_sweep_eq_take_sweep={st.giveRatEqTake}/{st.giveRatCmp} oracle_fails={st.oracleFails}"
   for x in st.sample do IO.println s!"SAMPLE {x}"
   return (if s.diffs == 0 ∧ s.rejects == 0 ∧ st.oracleFails == 0 then 0 else 1)
 
